@@ -763,25 +763,25 @@ func ruleGR6(c *Ctx) *rule {
 		r.bad(key, c.bpos(rl.loop.header), "no loop-carried accumulator of task results")
 	} else {
 		bad := ""
+		pathBad := c.oneAppendPerWay(rl.fn, rl.loop, acc)
 		for i, pred := range rl.loop.header.Preds {
-			if !rl.loop.body[pred] {
+			if !rl.loop.body[pred] || pathBad == "" {
 				continue
 			}
-			v := acc.Edges[i]
-			okApp := false
-			if cl, ok := v.(*ssa.Call); ok {
-				if bi, ok := cl.Call.Value.(*ssa.Builtin); ok && bi.Name() == "append" && cl.Call.Args[0] == ssa.Value(acc) {
-					// one element
-					if sl, ok := cl.Call.Args[1].(*ssa.Slice); ok {
-						if a, ok := sl.X.(*ssa.Alloc); ok {
-							if arr, ok := a.Type().(*types.Pointer).Elem().(*types.Array); ok && arr.Len() == 1 {
-								okApp = true
-							}
+			// the value carried round: append(acc, <one result>), or a merge (inside the loop) of such appends
+			var oneAppend func(v ssa.Value, depth int) bool
+			oneAppend = func(v ssa.Value, depth int) bool {
+				if phi, ok := v.(*ssa.Phi); ok && depth < 6 && rl.loop.body[phi.Block()] && phi.Block() != rl.loop.header {
+					for _, e := range phi.Edges {
+						if !oneAppend(e, depth+1) {
+							return false
 						}
 					}
+					return len(phi.Edges) > 0
 				}
+				return isOneAppend(v, acc)
 			}
-			if !okApp {
+			if !oneAppend(acc.Edges[i], 0) {
 				bad = "the back edge from " + c.bpos(pred) + " does not carry append(results, <one result>)"
 			}
 		}
@@ -882,6 +882,66 @@ func ruleGR6(c *Ctx) *rule {
 		r.bad(key, c.bpos(rl.loop.header), bad)
 	}
 	return r
+}
+
+// oneAppendPerWay walks every feasible way round loop l and evaluates, at the back edge, the value that accumulator acc
+// takes for the next iteration with the phis resolved along that way: it must be append(acc, <one element>). It returns ""
+// when that holds on every way, else a description of the first way on which it does not.
+func (c *Ctx) oneAppendPerWay(fn *ssa.Function, l *loopInfo, acc *ssa.Phi) string {
+	for i, pred := range l.header.Preds {
+		if l.body[pred] {
+			registerControlValue(acc.Edges[i], lastInstr(pred))
+		}
+	}
+	fi := c.info(fn)
+	_ = fi
+	seen := map[string]bool{}
+	bad := ""
+	var dfs func(b *ssa.BasicBlock, ps *pathState)
+	dfs = func(b *ssa.BasicBlock, ps *pathState) {
+		if bad != "" {
+			return
+		}
+		k := fmt.Sprintf("%d|%s", b.Index, ps.key())
+		if seen[k] {
+			return
+		}
+		seen[k] = true
+		for i, nx := range b.Succs {
+			_, _, next, ok := ps.branch(b, i)
+			if !ok {
+				continue
+			}
+			if nx == l.header && l.body[b] {
+				j := predIndex(l.header, b)
+				if j < 0 || j >= len(acc.Edges) {
+					continue
+				}
+				v := next.resolve(acc.Edges[j])
+				good := false
+				if cl, isCall := v.(*ssa.Call); isCall && isOneAppend(v, cl.Call.Args[0]) && next.resolve(cl.Call.Args[0]) == ssa.Value(acc) {
+					good = true
+				}
+				if !good {
+					bad = "the way round the loop ending at " + c.bpos(b) + " does not append exactly one result"
+				}
+				continue
+			}
+			if !l.body[nx] {
+				continue
+			}
+			dfs(nx, next.enter(nx, b))
+		}
+	}
+	for i, nx := range l.header.Succs {
+		if l.body[nx] {
+			_, _, next, ok := newPathStateFor(fn).branch(l.header, i)
+			if ok {
+				dfs(nx, next.enter(nx, l.header))
+			}
+		}
+	}
+	return bad
 }
 
 // traceToSort follows a slice value back through parameters to the result of Graph.Sort; it returns "" when it is
